@@ -23,7 +23,7 @@ func checkC05(tier, replay string) int {
 			collect.add(out.Prog)
 		}
 	}
-	for _, a := range refsem.Archs() {
+	for _, a := range append(append([]*refsem.Arch{}, refsem.Archs()...), refsem.ArchX32()) {
 		names := s1Names(a)
 		n := s1Size(2)
 		if tier == "thorough" {
@@ -59,14 +59,14 @@ func checkC05(tier, replay string) int {
 	})
 	// conformance of the verifier port with the real kernel
 	kernelConformance(ctx, collect, tier)
-	r.finish("every program returned with nil error by scopes S1, S3 (<=3 entries, <=2 conditions), S6 (bodies of every length, bridges), the C07 bases, the C07 defect-injected policies (whenever the compiler accepts one) and the degenerate scope (1-3 all-empty groups with nil/empty slices, single names, whole tables on 4 architectures, one syscall with 1..1100 single-condition lists crossing the 4096 limit, lists of 1..60 conditions) is raw-encoded with bpf.Assemble and, if <= 4096 instructions, fed to a line-by-line port of bpf_check_classic + seccomp_check_filter; its RET constants must lie in {default, group actions, ERRNO|ENOSYS on x86_64}; the port itself is replayed against the real seccomp(2) on every distinct program shape met (returns rewritten to ALLOW) and on a fixed set of invalid programs, one per rejection rule; non-trivial = >= 2 distinct decisions or, for programs not executed, counted under distinct_programs")
+	r.finish("every program returned with nil error by scopes S1, S3 (<=3 entries, <=2 conditions), S6 (bodies of every length, bridges), the C07 bases, the C07 defect-injected policies (whenever the compiler accepts one) and the degenerate scope (1-3 all-empty groups with nil/empty slices, single names, whole tables on 4 architectures and the x32 ABI (through the architecture hook), one syscall with 1..1100 single-condition lists crossing the 4096 limit, lists of 1..60 conditions) is raw-encoded with bpf.Assemble and, if <= 4096 instructions, fed to a line-by-line port of bpf_check_classic + seccomp_check_filter; its RET constants must lie in {default, group actions, ERRNO|ENOSYS on x86_64}; the port itself is replayed against the real seccomp(2) on every distinct program shape met (returns rewritten to ALLOW) and on a fixed set of invalid programs, one per rejection rule; non-trivial = >= 2 distinct decisions or, for programs not executed, counted under distinct_programs")
 	ctx.Cov["distinct_nontrivial"] = int64(len(r.progs))
 	ctx.Assumptions = []string{"cbpf.Check is a faithful port of the kernel verifier (validated against this kernel on every distinct shape met, see traces_validated_against_impl)", "every return is RET K (fragment check), so the syntactic set of RET constants is the set of returnable values"}
 	return ctx.Finish()
 }
 
 func runDegenerate(one func(scope string, a *refsem.Arch, p *seccomp.Policy, o engine.Options), tier string) {
-	for _, a := range refsem.Archs() {
+	for _, a := range append(append([]*refsem.Arch{}, refsem.Archs()...), refsem.ArchX32()) {
 		names := a.SortedNames()
 		for _, def := range allNamed {
 			for ng := 1; ng <= 3; ng++ {
